@@ -21,7 +21,7 @@ func toModelRules(rs []drive.Rule) []model.RMWRule {
 }
 
 func runC13(run *common.Run) {
-	run.Rule = "case = one program on one engine: a prior row state (cells at clock-1ms / clock / clock+1h / 0, values of length 0,1,7,8,9) followed by 2-6 ReadModifyWriteRow requests with 0-5 rules (repeated columns, mixed append/increment, extreme amounts, unknown family at any position; every third program starts from rows with 40 columns in one family and names new columns that sort between them, every third program uses families that are prefixes of one another with qualifiers whose concatenations collide) under a moving injected clock (non-millisecond values, backward steps); after each request the response row and a full re-read are compared with the RMW model. Non-trivial = at least one request hit a prior cell in the future of the clock and one request was rejected or wrapped around; distinct by program x engine."
+	run.Rule = "case = one program on one engine: a prior row state (cells at clock-1ms / clock / clock+1h / 0, values of length 0,1,7,8,9) followed by 2-6 ReadModifyWriteRow requests with 0-5 rules (repeated columns, mixed append/increment, extreme amounts, unknown family at any position; every third program starts from rows with 40 columns in one family and names new columns that sort between them, every third program uses families that are prefixes of one another with qualifiers whose concatenations collide) under a moving injected clock (non-millisecond values, backward steps); after each request the response row and a full re-read are compared with the RMW model. Part 'race': a ReadModifyWriteRow meets an admin request (drop of a family a rule names or of another one, DropRowRange all / by prefix) performed start to finish at the moment the request queues for the table lock; its answer (incl. the response cells) and the final table must be explained by one of the two serial orders. Non-trivial = at least one request hit a prior cell in the future of the clock and one request was rejected or wrapped around; distinct by program x engine."
 	run.Assumptions = []string{"an increment on an existing cell whose value is empty may fail without change or count as 0", "family order in the response row is not compared", "a request with no rules may be rejected or be a no-op"}
 	j := common.NewJournal("C13")
 	nprog := run.N(1500, 30000)
@@ -34,6 +34,10 @@ func runC13(run *common.Run) {
 		c13Program(run, prog, engine, i)
 		j.End(i % 64)
 	})
+	if run.WantSub("race") && !run.TooMany() {
+		// a ReadModifyWriteRow meets a family drop / DropRowRange performed while it queues for the table lock
+		runWriteVsAdmin(run, "race", []string{"RMW"}, run.N(120, 2000))
+	}
 }
 
 func c13Program(run *common.Run, prog int, engine string, idx int) {
